@@ -1308,6 +1308,15 @@ impl PipeEngine {
             0 => format!("zz\"Ex\\tra\n{}", ctx.draw(1000)),
             _ => format!("zzExtra{}", ctx.draw(1000)),
         };
+        // sometimes far longer than any buffer an error path might keep for it, and not ASCII
+        let pad = match ctx.draw(4) {
+            0 => "é".repeat(20 + ctx.draw(80) as usize),
+            1 => format!("{}\u{1F600}{}", "k".repeat(40 + ctx.draw(40) as usize), "\u{20AC}".repeat(ctx.draw(30) as usize)),
+            _ => String::new(),
+        };
+        if !pad.is_empty() {
+            ctx.count("probe.c05_long_member_name");
+        }
         let n_extra = 1 + ctx.draw(3) as usize;
         let mode = if ctx.chance(1, 2) { Mode::Json } else { Mode::Smile };
         ctx.sig(name);
@@ -1319,11 +1328,17 @@ impl PipeEngine {
                 let mut v: Value = serde_json::from_slice(&canon).unwrap();
                 let mut placed = 0;
                 for i in 0..n_extra {
-                    if ctx.with_tape(|t| crate::faults::splice_unknown(t, &ty, &mut v, &format!("{}_{}", field, i))) {
+                    let raw = if ctx.chance(1, 4) { Some(Value::String(crate::faults::RAW_PLACEHOLDER.into())) } else { None };
+                    if ctx.with_tape(|t| crate::faults::splice_unknown_with(t, &ty, &mut v, &format!("{}_{}{}", field, i, pad), raw)) {
                         placed += 1;
                     }
                 }
-                (serde_json::to_vec(&v).unwrap(), placed)
+                let (b, label) = ctx.with_tape(|t| crate::faults::raw_values(t, serde_json::to_vec(&v).unwrap()));
+                if let Some(l) = label {
+                    ctx.count("probe.c05_raw_unknown_value");
+                    ctx.log(|| format!("raw unknown value {}", l));
+                }
+                (b, placed)
             }
             Mode::Smile => {
                 let canon = smile::to_vec(&expected).unwrap();
@@ -1336,7 +1351,7 @@ impl PipeEngine {
                 };
                 let mut placed = 0;
                 for i in 0..n_extra {
-                    if ctx.with_tape(|t| splice_unknown_smile(t, &ty, &mut v, &format!("{}_{}", field, i))) {
+                    if ctx.with_tape(|t| splice_unknown_smile(t, &ty, &mut v, &format!("{}_{}{}", field, i, pad))) {
                         placed += 1;
                     }
                 }
